@@ -165,6 +165,7 @@ class GenomeOps(Harness):
                     if n == 3 and (op in ("mask", "pileup") and g == "g4"):
                         continue
                     out.append(dict(genome=g, op=op, n=n))
+            out.append(dict(genome=g, op="location", n=2, unstranded=True))      # start / stop / center of intervals without a strand
         return out
 
     def inputs(self, skel, V):
@@ -183,7 +184,7 @@ class GenomeOps(Harness):
                 s = V.int(f"s{i}", 0, max(sizes)); e = V.int(f"e{i}", 0, max(sizes))
                 V.assume(z3.And(s.t < e.t, e.t <= size_c))
             if skel["op"] in ("extend", "location", "windows"):
-                V.int(f"neg{i}", 0, 1)
+                V.int(f"neg{i}", 0, 0 if skel.get("unstranded") else 1)      # unstranded intervals are read like '+' intervals
             if skel["op"].startswith("merged") and i:      # precondition: sorted by chromosome, start
                 pc, ps = V.vars[f"c{i-1}"].t, V.vars[f"s{i-1}"].t
                 V.assume(z3.Or(c.t > pc, z3.And(c.t == pc, s.t >= ps)))
@@ -213,7 +214,7 @@ class GenomeOps(Harness):
             ccodes = [S_select(code_of, c) for c in codes]
         chrom = EncodedArray(ctx.arr(ccodes, "int64"), gc.encoding)
         starts = ctx.arr([x[f"s{i}"] for i in range(n)], "int64")
-        stranded = op in ("extend", "location", "windows")
+        stranded = op in ("extend", "location", "windows") and not skel.get("unstranded")
         strand = EncodedArray(ctx.arr([x[f"neg{i}"] for i in range(n)], "uint8"), StrandEncoding) if stranded else None
         if op == "windows":
             from bionumpy.genomic_data.genomic_intervals import GenomicLocation
